@@ -34,6 +34,8 @@ func main() {
 		os.Exit(cmdList())
 	case "replay":
 		os.Exit(cmdReplay(os.Args[2:]))
+	case "ssa":
+		os.Exit(cmdSSA(os.Args[2:]))
 	default:
 		usage()
 	}
@@ -223,6 +225,12 @@ func cmdCheck(args []string) int {
 	vacuous := 0
 	knownHit := []string{}
 	sort.SliceStable(obls, func(i, j int) bool { return obls[i].Name < obls[j].Name })
+	if d := os.Getenv("GOWP_DUMPALL"); d != "" {
+		os.MkdirAll(d, 0o755)
+		for _, o := range obls {
+			os.WriteFile(filepath.Join(d, sanitize(o.Name)+".smt2"), []byte(o.smt()), 0o644)
+		}
+	}
 	for _, o := range obls {
 		solverTime += o.Secs
 		if o.Kind == "cover" {
